@@ -370,7 +370,9 @@ class TTCFG(
                 else:
                     rules[NT][P] = self.rules[NT][P]
         # Cleaning produces infinite loop
-        return self.__class__(self.start, rules, clean=False)
+        grammar = self.__class__(self.start, rules, clean=False)
+        grammar.type_request = self.type_request
+        return grammar
 
     @classmethod
     def size_constraint(
@@ -514,4 +516,6 @@ def __saturation_build__(
                     if tmp_stack:
                         list_to_be_treated.append((tmp_stack[0], new_el, tmp_stack[1:]))
 
-    return TTCFG((return_type, init), rules)
+    grammar: TTCFG[S, T] = TTCFG((return_type, init), rules)
+    grammar.type_request = type_request
+    return grammar
